@@ -58,10 +58,16 @@ def build_real(node, leaves):
         if kind == 'cbc':
             eng.set_normal_key(0x10, node[1])
             return eng.create_cbc_io(0x10, inner, node[2])
-        slot = 0x10 if kind == 'ctr' else 0x01
+        slot = ctr_slot(kind, node[1])
         eng.set_normal_key(slot, node[1])
         return eng.create_ctr_io(slot, inner, node[2])
     raise ValueError(kind)
+
+
+def ctr_slot(kind, key):
+    """the keyslot a generated CTR wrapper is created on: every DSi slot (0-3) for 'twl', slots on both sides of the 3DS range for
+    'ctr' (4 = the first one) - a function of the key so that a case replays identically"""
+    return key[0] % 4 if kind == 'twl' else (0x04, 0x10, 0x2C, 0x3F)[key[0] % 4]
 
 
 def ecb(key, blk):
